@@ -50,6 +50,8 @@ def tags_of(beh):
             t.add("ckpt:%s" % a["kind"])
         elif k == "Commit":
             t.add("commit:%s" % a["mode"])
+        elif k == "Stage":
+            t.add("stage:%s" % a.get("kind"))
         else:
             t.add(k)
     sessions = {a["who"] for a in beh if a["a"] == "Edit" and a["who"] != "H"}
